@@ -502,11 +502,11 @@ func HarnessC07a() {
 	withinSpines := func(log []string) bool { return distinct(log) <= D+spineBudget }
 	// second known finding (same cause, other quantity): when the descendant is *taller* (the tree grew), every gap
 	// between two keys of the new top node starts with a new key-less node above an unchanged chain of the old
-	// version, and the diff reads down such chains: up to two common nodes per level and gap
+	// version, and the diff reads the head of each such chain: up to two common nodes per gap (plus the spine budget)
 	growBudget := uint64(0)
 	if verifBound("MODE") == 1 && rNew.Height > rOld.Height && rNew.Link != nil {
 		if top := loadPNode(stNew, *rNew.Link, int(rNew.Height), true); top != nil {
-			growBudget = 2 * hmax * uint64(len(top.keys)+1)
+			growBudget = 2*uint64(len(top.keys)+1) + 2*hmax*uint64(verifBoundOr("K", 1))
 		}
 	}
 	withinGrowth := func(log []string) bool { return verifAnd(growBudget > 0, distinct(log) <= D+growBudget) }
